@@ -8,6 +8,20 @@ from ..model import build_models
 from ..ownership import FRESH, A, Ctx, Evaluator, S, Shapes, U, V, bad_parts, borrowed
 
 RESULT_BUILDERS = ("__add__", "__mul__", "zero")
+# The operations the property names plus the read accessors of the primitives / Container / plotting mixins, confirmed on the
+# pinned tree.  A method that is not in this table (a helper extracted from a mutator, a new mutator such as reset()) carries no
+# purity obligation of its own; if a method of the table CALLS it, its effect is charged to that caller (summary propagation).
+PURE_NAMES = {
+    "__add__", "__call__", "__eq__", "__getstate__", "__hash__", "__mul__", "__ne__", "__repr__", "__rmul__", "_bin_range",
+    "_center_from_key", "_checkNPWeights", "_lower_index", "_makeNPWeights", "_sparksql", "_upper_index", "ascii", "at", "bin",
+    "bin_centers", "bin_edges", "bin_entries", "bin_labels", "bin_width", "binsMap", "center", "centers", "centersSet", "children",
+    "confidenceIntervalValues", "copy", "edges", "factory", "fractionPassing", "get", "getOrElse", "high", "histogram", "index",
+    "indexes", "keySet", "keys", "low", "maxBin", "meanValues", "minBin", "mpv", "n_bins", "name", "nan", "neighbors", "num",
+    "numFilled", "num_bins", "numericalNanflow", "numericalOverflow", "numericalUnderflow", "numericalValues", "over", "pairs",
+    "plot", "plotbokeh", "plotmatplotlib", "project_on_x", "project_on_y", "range", "size", "thresholds", "toImmutable", "toJson",
+    "toJsonFile", "toJsonFragment", "toJsonString", "under", "value", "values", "variance", "varianceValues", "x_lim",
+    "xy_ranges_grid", "y_lim", "zero",
+}
 # methods that are allowed to change the receiver (everything else on a primitive must be pure)
 MUTATORS = {"__init__", "fill", "_numpy", "_update", "fillnumpy", "fillsparksql", "__iadd__", "__setstate__",
             "specialize", "_checkForCrossReferences", "_checkNPQuantity", "__getattr__"}
@@ -458,6 +472,8 @@ def purity(repo, rep, r1, ck, prims, models):
     for k, (c, f, eff) in sorted(direct.items()):
         if f.name in MUTATORS or f.is_setter:
             continue
+        if f.name not in PURE_NAMES:
+            continue        # no obligation of its own (see PURE_NAMES); effects reach its callers through `mut`
         rep.analysed_functions.add(f.construct)
         msgs = list(eff)
         sn = f.params[0]
